@@ -220,6 +220,57 @@ def h_load_history(lang, first=None):
     return fn
 
 
+# (languages, region): the region exists for some of the languages only
+REGION_MIX = [(["fr", "en"], "AU"), (["en", "fr"], "CA"), (["de", "en", "es"], "US"), (["pt", "es"], "MX"), (["ru", "en"], "001")]
+
+
+def _valid_locales(langs, region):
+    _, locd = C.languages_index()
+    return [l + "-" + region for l in langs if (l + "-" + region) in locd.get(l, [])]
+
+
+def h_region_mix(idx, probe_lang):
+    """languages + region when the region is defined for some of the languages only: the locales that exist are used
+    (the reported locale is one of them, the date is read by its conventions); afterwards the locale selected directly
+    still behaves as in a fresh process"""
+    langs, region = REGION_MIX[idx]
+
+    def fn():
+        n = C.ns()
+        n.LO.LocaleDataLoader._loaded_languages.clear()
+        n.LO.LocaleDataLoader._loaded_locales.clear()
+        n.D.DateDataParser.locale_loader = None
+        valid = _valid_locales(langs, region)
+        v = C.date_fields(ymin=1000, ymax=9999)
+        core.assume(mkbool(_zi(v["d"]) <= 12))        # ambiguous on purpose: only the locale's order decides
+        wit = dict(v)
+        p = n.D.DateDataParser(languages=list(langs), region=region)
+        loc = probe_lang + "-" + region
+        order = C.locale_date_order(probe_lang, loc) or "MDY"
+        parts = []
+        for q, ch in enumerate(order):
+            if q:
+                parts.append("/")
+            parts.append({"D": ("d", 2), "M": ("m", 2), "Y": ("Y", 4)}[ch])
+        dd = p.get_date_data(tmpl(parts, v))
+        if dd.date_obj is None:
+            return C.outcome(False, wit, "none")
+        lname = getattr(dd.locale, "shortname", dd.locale)
+        orders = {C.locale_date_order(l.rsplit("-", 1)[0] if l.count("-") else l, l) or "MDY" for l in valid}
+        ok = lname in valid
+        if len(orders) == 1:
+            ok = z3.And(z3.BoolVal(ok), C.dt_is(dd.date_obj, v["Y"], v["m"], v["d"]))
+        # history: the same locale selected directly afterwards applies its own vocabulary and order
+        dd2 = n.D.DateDataParser(locales=[loc]).get_date_data(tmpl(parts, v))
+        ok2 = dd2.date_obj is not None and getattr(dd2.locale, "shortname", dd2.locale) == loc
+        if ok2:
+            ok = z3.And(ok if not isinstance(ok, bool) else z3.BoolVal(ok), C.dt_is(dd2.date_obj, v["Y"], v["m"], v["d"]))
+        else:
+            ok = False
+        return C.outcome(ok, wit, "region-mix", {"locale": lname, "valid": valid})
+    return fn
+
+
 def tasks(tier, seed):
     out = []
     quick = tier == "quick"
@@ -240,6 +291,11 @@ def tasks(tier, seed):
     add("law:unknown-code", "h_law", {"k": 2, "string_idx": 1, "with_unknown": True, "first": len(POOL)}, 120)
     for name in (sorted(REL) if not quick else [sorted(REL)[seed % len(REL)], "en"]):
         add("reparse:%s" % name, "h_reparse", {"name": name})
+    mix = list(range(len(REGION_MIX))) if not quick else [seed % len(REGION_MIX), (seed + 2) % len(REGION_MIX)]
+    for i in mix:
+        langs, region = REGION_MIX[i]
+        for l in [x.rsplit("-", 1)[0] for x in _valid_locales(langs, region)][:1 if quick else 3]:
+            add("region-mix:%s+%s:%s" % ("+".join(langs), region, l), "h_region_mix", {"idx": i, "probe_lang": l}, 200)
     for lang in (sorted(HIST) if not quick else [sorted(HIST)[seed % len(HIST)]]):
         for first in range(len(HIST[lang])):
             add("load-history:%s:first=%s" % (lang, HIST[lang][first]), "h_load_history", {"lang": lang, "first": first})
@@ -259,6 +315,24 @@ def native_check(spec):
     from dateparser.date import DateDataParser, DateData
     from dateparser.timezone_parser import pop_tz_offset_from_string
     fn, a, w = spec["fn"], spec["args"], spec["witness"]
+    if fn == "h_region_mix":
+        langs, region = REGION_MIX[a["idx"]]
+        valid = _valid_locales(langs, region)
+        loc = a["probe_lang"] + "-" + region
+        order = C.locale_date_order(a["probe_lang"], loc) or "MDY"
+        s_ = "/".join({"D": "%02d" % w["d"], "M": "%02d" % w["m"], "Y": "%04d" % w["Y"]}[ch] for ch in order)
+        exp = _dt.datetime(w["Y"], w["m"], w["d"])
+        try:
+            dd = DateDataParser(languages=list(langs), region=region).get_date_data(s_)
+            dd2 = DateDataParser(locales=[loc]).get_date_data(s_)
+        except Exception as e:  # noqa
+            return {"violates": True, "detail": "languages=%r, region=%r, %r raised %s: %s" % (langs, region, s_, type(e).__name__, e)}
+        orders = {C.locale_date_order(l.rsplit("-", 1)[0], l) or "MDY" for l in valid}
+        bad = dd.date_obj is None or dd.locale not in valid or (len(orders) == 1 and dd.date_obj != exp) \
+            or dd2.date_obj != exp or dd2.locale != loc
+        return {"violates": bad, "detail": "DateDataParser(languages=%r, region=%r).get_date_data(%r) -> %r (locale %r; the locales "
+                "that exist: %r); then DateDataParser(locales=[%r]) -> %r (locale %r); expected %r" % (
+                    langs, region, s_, dd.date_obj, dd.locale, valid, loc, dd2.date_obj, dd2.locale, exp)}
     if fn == "h_law":
         order, _ = C.languages_index()
         pool = POOL + (["xx"] if a.get("with_unknown") else [])
